@@ -101,7 +101,9 @@ func (w *World) earlyExits(pkgPrefixes ...string) []earlyExit {
 				parts = append(parts, f)
 			}
 			for cl := range a.Calls {
-				parts = append(parts, "call:"+strings.TrimPrefix(cl, "inlined:"))
+				if cl = strings.TrimPrefix(cl, "inlined:"); !isPlumbingCall(cl) {
+					parts = append(parts, "call:"+cl)
+				}
 			}
 			for l := range a.Lits {
 				parts = append(parts, "lit:"+l)
